@@ -48,6 +48,7 @@ func variantOutcome(base *World, prop string, overlay map[string][]byte) (status
 		}
 		return "does-not-compile", nil
 	}
+	defer releaseWorld(w) // the process-wide caches must not keep this variant's program alive
 	c := runProp(w, prop, "quick", 1)
 	viol, und, _ := c.Verdict()
 	f := map[string]bool{}
@@ -82,7 +83,7 @@ func runWitnesses(prop, tier string) []WitnessResult {
 		}
 		return res
 	}
-	sem := make(chan struct{}, 6)
+	sem := make(chan struct{}, 4) // each in-flight variant holds a type-checked program (~1.5 GB)
 	var wg sync.WaitGroup
 	for i, w := range ws {
 		wg.Add(1)
